@@ -1,16 +1,181 @@
 (* C07 - DKG: honest participants agree on the verdict and on consistent keys.
-   Statements only; proofs in Proofs/DkgQualRefine.v and Proofs/DkgAgree.v. *)
+   Statements only; proofs in Proofs/DkgQualRefine.v (refinement of the Feldman-VSS-Qual
+   handlers to the fact set of Spec/DkgQualFacts.v) and Proofs/DkgAgree.v.
+
+   Setting (Model/DkgNet.v): every honest participant is described by the list L of inputs its
+   instance processed between Start and End - broadcasts and private messages of ANY origin
+   and content (the Byzantine participants are not machines: whatever they send just appears
+   in these lists), the timeouts, ForceDisqualify - in ANY interleaving.  [annot L] tags each
+   input with its phase. *)
 From Coq Require Import ZArith List Bool Arith Lia.
-From V Require Import Model.DkgVss Model.DkgQual Spec.DkgQualFacts Proofs.DkgQualRefine.
+From V Require Import Model.DkgVss Model.DkgQual Model.DkgJoint Model.DkgNet Spec.DkgQualFacts
+  Proofs.DkgQualRefine Proofs.DkgAgree.
 Import ListNotations.
 Open Scope Z_scope.
 
-(* the invariant of the refinement: after ANY list of inputs (broadcasts and private messages
-   of any origin and content, timeouts, ForceDisqualify) processed by a running honest
-   non-dealer, either the instance is not disqualified, its flags and complaint map are the
-   abstraction of the facts and Phi is false, or it is disqualified and Phi is true *)
+(* ---- the refinement ---- *)
+(* after ANY input list processed by a running honest non-dealer: either the instance is not
+   disqualified, its flags, vector, public shares and complaint map are the abstraction of the
+   facts (first vector of phase 0 and its validity, first private message, complainers seen
+   before the complaints timeout incl. the own complaint, FIRST answer per complainer, the
+   private share), and Phi is false; or it is disqualified and Phi is true *)
 Theorem C07_qual_refines_factset :
   forall cf d, (c_my cf < c_n cf)%nat -> (d < c_n cf)%nat -> c_my cf <> d ->
   forall L, Refines cf d (annot L) (irun cf d q_init L).
 Proof. exact qual_refines_factset. Qed.
 Print Assumptions C07_qual_refines_factset.
+
+(* End after both timeouts: dkg-failure iff PhiEnd (Phi, or a complaint never answered), or the
+   dealer's group key is the identity; otherwise the keys of the dealer's vector, with the own
+   private share equal to the discrete log of the own public share *)
+Theorem C07_qual_end_result :
+  forall cf d, (c_my cf < c_n cf)%nat -> (d < c_n cf)%nat -> c_my cf <> d ->
+  forall L, ph L = 2%nat ->
+    let A := annot L in
+    let '(_, _, res, _) := q_end cf d true (irun cf d q_init L) in
+    (PhiEnd cf d A = true -> res = RFailure) /\
+    (PhiEnd cf d A = false ->
+       exists a0 al, vecOk cf d A = Some (a0 :: al) /\
+         res = if a0 =? 0 then RFailure
+               else RKeys (peval (a0 :: al) (Z.of_nat (c_my cf) + 1)) a0 (pubkeys cf (a0 :: al))).
+Proof. exact qual_end_result. Qed.
+Print Assumptions C07_qual_end_result.
+
+(* ---- the verdict is a function of the common broadcast log ---- *)
+(* PsiEnd reads: the dealer's phase-tagged broadcast sequence [bview d A], the set of
+   complainers (the own complaint is a member: it is itself broadcast), whether
+   ForceDisqualify(d) was called, and the number of elapsed timeouts - nothing else, in
+   particular not the interleaving and not the private messages *)
+Theorem C07_verdict_is_function_of_broadcast_log :
+  forall cf d A,
+    PhiEnd cf d A = PsiEnd (c_n cf) (c_t cf) (bview d A) (complained cf d A) (forced d A) (nph A).
+Proof. exact PhiEnd_is_Psi. Qed.
+Print Assumptions C07_verdict_is_function_of_broadcast_log.
+
+(* ---- agreement, one dealer ---- *)
+(* any two honest non-dealers of an admissible execution (same per-sender broadcast sequences
+   in the same phases; an honest participant's complaint reaches the others before the
+   complaints timeout) reach the same verdict on the dealer *)
+Theorem C07_agreement_disqualified :
+  forall n t d honest inputs, admissible n t d honest inputs ->
+  forall i j, In i honest -> In j honest ->
+    PhiEnd (cfg_of n t i) d (annot (inputs i)) = PhiEnd (cfg_of n t j) d (annot (inputs j)).
+Proof. intros n t d honest inputs H. exact (agreement_disqualified n t d honest inputs H). Qed.
+Print Assumptions C07_agreement_disqualified.
+
+(* ... and the same outcome: all fail with dkg-failure, or all return the same group key and
+   the same vector of public shares, each private share being the log of its public share *)
+Theorem C07_agreement_outcome_qual :
+  forall n t d honest inputs, (d < n)%nat -> admissible n t d honest inputs ->
+  forall i j, In i honest -> In j honest ->
+    let ri := let '(_, _, res, _) := q_end (cfg_of n t i) d true (irun (cfg_of n t i) d q_init (inputs i)) in res in
+    let rj := let '(_, _, res, _) := q_end (cfg_of n t j) d true (irun (cfg_of n t j) d q_init (inputs j)) in res in
+    (ri = RFailure /\ rj = RFailure) \/
+    (exists xi xj Y ys, ri = RKeys xi Y ys /\ rj = RKeys xj Y ys /\
+                        nth_error ys i = Some xi /\ nth_error ys j = Some xj /\ length ys = n).
+Proof. intros n t d honest inputs Hd H. exact (agreement_outcome_qual n t d honest inputs Hd H). Qed.
+Print Assumptions C07_agreement_outcome_qual.
+
+(* ---- Joint-Feldman ---- *)
+(* [inst_rel cf q oa]: instance q is disqualified (oa = None) or qualified with the dealer
+   vector a (oa = Some a): vA = a, y = public shares of a, own share = P_a(my+1).
+   Two participants whose n instances carry the same verdicts and the same vectors: *)
+
+(* same group key, same public shares, own share = log of own public share, and all shares
+   lie on ONE polynomial S with t+1 coefficients (degree <= t): the sum of the qualified
+   dealers' polynomials; the group key is S(0) *)
+Theorem C07_agreement_keys :
+  forall (cf cf' : cfg) qs qs' oas,
+    c_n cf' = c_n cf -> c_t cf' = c_t cf -> (c_my cf < c_n cf)%nat -> (c_my cf' < c_n cf')%nat ->
+    Forall2 (inst_rel cf) qs oas -> Forall2 (inst_rel cf') qs' oas -> somes oas <> [] ->
+    let S := psum (c_t cf) (somes oas) in
+    exists x x' ys,
+      length S = Datatypes.S (c_t cf) /\
+      sum_up cf qs = Some (x, peval S 0, ys) /\ sum_up cf' qs' = Some (x', peval S 0, ys) /\
+      ys = pubkeys cf S /\
+      nth_error ys (c_my cf) = Some x /\ nth_error ys (c_my cf') = Some x'.
+Proof. exact agreement_keys. Qed.
+Print Assumptions C07_agreement_keys.
+
+(* End (failure rule: more than t disqualified or not more than t qualified, then the sums):
+   both fail or both return those keys - provided neither summed share is zero (a participant
+   whose summed share is zero alone returns dkg-failure, see the _refuted example below) *)
+Theorem C07_agreement_outcome_joint :
+  forall (cf cf' : cfg) qs qs' oas,
+    c_n cf' = c_n cf -> c_t cf' = c_t cf -> (c_my cf < c_n cf)%nat -> (c_my cf' < c_n cf')%nat ->
+    length oas = c_n cf ->
+    Forall2 (inst_rel cf) qs oas -> Forall2 (inst_rel cf') qs' oas ->
+    let S := psum (c_t cf) (somes oas) in
+    peval S (Z.of_nat (c_my cf) + 1) <> 0 -> peval S (Z.of_nat (c_my cf') + 1) <> 0 ->
+    (joint_outcome cf qs = RFailure /\ joint_outcome cf' qs' = RFailure) \/
+    (exists x x' ys,
+       joint_outcome cf qs = RKeys x (peval S 0) ys /\ joint_outcome cf' qs' = RKeys x' (peval S 0) ys /\
+       ys = pubkeys cf S /\ nth_error ys (c_my cf) = Some x /\ nth_error ys (c_my cf') = Some x' /\
+       length S = Datatypes.S (c_t cf)).
+Proof. exact agreement_outcome_joint. Qed.
+Print Assumptions C07_agreement_outcome_joint.
+
+(* [joint_outcome] is what JointFeldmanState.End returns after its first loop *)
+Theorem C07_joint_end_is_outcome :
+  forall cf s qs ev, j_jrun s = true ->
+    jend_loop cf 0 (j_insts s) = (qs, ev, Some (length (filter q_disq qs))) ->
+    snd (fst (joint_end cf s)) = joint_outcome cf qs.
+Proof. exact joint_end_outcome. Qed.
+Print Assumptions C07_joint_end_is_outcome.
+
+(* without the non-zero hypothesis the outcome agreement is refuted in the model (n = 3, t = 1,
+   dealers 0 and 1 qualified with P_0 = -2 + X and P_1 = 1, dealer 2 disqualified): the sum is
+   S = -1 + X, S(1) = 0: participant 0 gets dkg-failure, participant 1 keys.
+   Needs a dealer that knows the others' polynomials (or probability 1/r); the code documents
+   it ("does not weaken the likelihood of generating an identity key to practical
+   probabilities"). *)
+Definition mk_inst (cf : cfg) (a : list Z) : qinst :=
+  mkQ (mkV None (VAFull a) true (peval a (Z.of_nat (c_my cf) + 1)) true (Some (pubkeys cf a)) false)
+      (fun _ => None) false true true.
+Definition dq_inst : qinst := mkQ v_init (fun _ => None) true true true.
+
+Theorem C07_agreement_outcome_joint_refuted :
+  let oas := [Some [r - 2; 1]; Some [1; 0]; None] in
+  let cf0 := mkCfg 3 1 0 in let cf1 := mkCfg 3 1 1 in
+  let qs0 := [mk_inst cf0 [r - 2; 1]; mk_inst cf0 [1; 0]; dq_inst] in
+  let qs1 := [mk_inst cf1 [r - 2; 1]; mk_inst cf1 [1; 0]; dq_inst] in
+  Forall2 (inst_rel cf0) qs0 oas /\ Forall2 (inst_rel cf1) qs1 oas /\
+  joint_outcome cf0 qs0 = RFailure /\ joint_outcome cf1 qs1 = RKeys 1 (r - 1) [0; 1; 2].
+Proof.
+  cbn zeta. split; [|split; [|split; vm_compute; reflexivity]].
+  - repeat constructor; cbn; eauto; vm_compute; reflexivity.
+  - repeat constructor; cbn; eauto; vm_compute; reflexivity.
+Qed.
+
+(* ---- non-vacuity ---- *)
+(* an admissible execution with a Byzantine dealer 0 (n = 3, t = 1): participant 1 gets a bad
+   share and complains, the dealer answers correctly; participant 2 sees the complaint and the
+   answer in the other order *)
+Example C07_admissible_nonvacuous :
+  let inputs := fun i =>
+    if Nat.eqb i 1 then [IB 0 (MVec (VOk [5; 3])); IP 0 (MShare (SVal 12)); ITimeout; IB 0 (MAnswer (AVal 1 11)); ITimeout]
+    else [IP 0 (MShare (SVal 14)); IB 0 (MVec (VOk [5; 3])); ITimeout; IB 0 (MAnswer (AVal 1 11)); IB 1 (MComplaint (CIdx 0)); ITimeout] in
+  admissible 3 1 0 [1%nat; 2%nat] inputs /\
+  PhiEnd (cfg_of 3 1 1) 0 (annot (inputs 1%nat)) = false.
+Proof.
+  cbn zeta. split; [|vm_compute; reflexivity].
+  unfold admissible.
+  assert (Hmem : forall i, In i [1%nat; 2%nat] -> i = 1%nat \/ i = 2%nat) by (intros i [E|[E|[]]]; auto).
+  split; [|split; [|split; [|split]]].
+  - intros i Hi. destruct (Hmem i Hi) as [->| ->]; vm_compute; repeat split; try lia; discriminate.
+  - intros i j Hi Hj. destruct (Hmem i Hi) as [->| ->]; destruct (Hmem j Hj) as [->| ->]; vm_compute; reflexivity.
+  - intros i j c Hi Hj Hci Hcj. destruct (Hmem i Hi) as [->| ->]; destruct (Hmem j Hj) as [->| ->]; try reflexivity;
+      destruct c as [|[|[|c]]]; try (exfalso; auto; fail); vm_compute; reflexivity.
+  - intros i j Hi Hj Hij. destruct (Hmem i Hi) as [->| ->]; destruct (Hmem j Hj) as [->| ->];
+      try (exfalso; auto; fail); vm_compute; reflexivity.
+  - intros i j Hi Hj. destruct (Hmem i Hi) as [->| ->]; destruct (Hmem j Hj) as [->| ->]; vm_compute; reflexivity.
+Qed.
+
+Example C07_joint_keys_nonvacuous :
+  let cf := mkCfg 3 1 1 in
+  exists qs, Forall2 (inst_rel cf) qs [Some [5; 3]; Some [7; 2]; None] /\
+             joint_outcome cf qs = RKeys 22 12 [17; 22; 27].
+Proof.
+  exists [mk_inst (mkCfg 3 1 1) [5; 3]; mk_inst (mkCfg 3 1 1) [7; 2]; dq_inst].
+  split; [repeat constructor; cbn; eauto; vm_compute; reflexivity|vm_compute; reflexivity].
+Qed.
